@@ -642,7 +642,7 @@ class StmtMixin:
         out = set()
         for cnode in calls:
             tgt = self.static_callee(cnode, st)
-            cc = (self.db.contracts.get(tgt) or self.db.assumed.get(tgt)) if tgt else None
+            cc = self.db.callee_contract(tgt) if tgt else None
             if cc is not None and cc.assigns:
                 for pname in cc.assigns:
                     if pname in cc.params:
@@ -702,7 +702,7 @@ class StmtMixin:
             tgt = self.static_callee(cnode, st)
             if tgt is None:
                 continue
-            cc = self.db.contracts.get(tgt) or self.db.assumed.get(tgt)
+            cc = self.db.callee_contract(tgt)
             if cc is None or not cc.assigns:
                 continue
             for pname in cc.assigns:
